@@ -88,7 +88,8 @@ struct World {
     acked: BTreeSet<u64>,
     strays_reported: BTreeSet<u64>,
     fails: Vec<String>,
-    tags: BTreeSet<String>,
+    /// one entry per request / event (counted into the input distribution)
+    tags: Vec<String>,
     broken: bool,
     nontrivial: bool,
 }
@@ -262,7 +263,7 @@ impl World {
             acked: BTreeSet::new(),
             strays_reported: BTreeSet::new(),
             fails: vec![],
-            tags: BTreeSet::new(),
+            tags: vec![],
             broken: false,
             nontrivial: false,
         })
@@ -416,10 +417,12 @@ impl World {
         }
         if msgs.len() >= 2 {
             self.nontrivial = true;
-            self.tags.insert("multi-chunk".into());
+            self.tags.push("multi-chunk".into());
         }
+        self.tags.push(format!("chunks:{}", match msgs.len() { 0 => "0", 1 => "1", 2..=5 => "2-5", 6..=20 => "6-20", _ => "21+" }));
+        self.tags.push(format!("changes:{}", match rows.len() { 0 => "0", 1..=9 => "1-9", 10..=99 => "10-99", 100..=999 => "100-999", _ => "1000+" }));
         if rows.windows(2).any(|w| w[1].seq > w[0].seq + 1) || rows.first().map(|c| c.seq > 0).unwrap_or(false) {
-            self.tags.insert("seq-holes".into());
+            self.tags.push("seq-holes".into());
         }
         for f in fails {
             self.fail(f);
@@ -491,7 +494,7 @@ impl World {
                 }
                 self.check_version(v, &rows);
                 self.check_book(&after, "after an acknowledged request");
-                self.tags.insert("ack".into());
+                self.tags.push("ack".into());
                 let ch: Vec<String> = rows.iter().map(|c| c.show()).collect();
                 Ok(format!("ok v={v} bc={} ch={}", self.show_bc(v), clip(show_list(&ch, ";"))))
             }
@@ -511,16 +514,16 @@ impl World {
                 self.sweep();
                 match out {
                     Outcome::Noop => {
-                        self.tags.insert("noop".into());
+                        self.tags.push("noop".into());
                         Ok("ok none".into())
                     }
                     Outcome::Err(e) => {
                         if e.contains("version=") {
                             self.fail(format!("error response carries a version: {e}"));
                         }
-                        self.tags.insert(e.replace(' ', ":"));
+                        self.tags.push(e.replace(' ', ":"));
                         if let Some(p) = fail_pos {
-                            self.tags.insert(format!("inject-pos:{}", p.min(3)));
+                            self.tags.push(format!("inject-pos:{}", p.min(3)));
                             if p > 0 {
                                 self.nontrivial = true;
                             }
@@ -588,7 +591,7 @@ impl World {
         }
         self.check_book(&after, "after concurrent requests");
         self.nontrivial = true;
-        self.tags.insert(format!("conc-acks:{}", k.min(5)));
+        self.tags.push(format!("conc-acks:{}", k.min(5)));
         let block = if k == 0 { "-".to_string() } else { format!("{}-{}", before.dbv + 1, before.dbv as u64 + k) };
         Ok(format!("acks={k} block={block} results={}", results.join(" & ")))
     }
@@ -660,7 +663,7 @@ impl World {
                 }
                 match build_req(stmts, true) {
                     Some(body) => {
-                        self.tags.insert("with-timeout".into());
+                        self.tags.push("with-timeout".into());
                         self.op_tx(Some(secs), body, injected_at(stmts)).await
                     }
                     None => Ok("bad-op".into()),
@@ -680,7 +683,7 @@ impl World {
                         )
                     })
                     .collect();
-                self.tags.insert(format!("big:{}", if n >= 1000 { "1000+" } else if n >= 100 { "100+" } else { "<100" }));
+                self.tags.push(format!("big:{}", if n >= 1000 { "1000+" } else if n >= 100 { "100+" } else { "<100" }));
                 self.op_tx(None, body, None).await
             }
             ["conc", k, txs] => {
@@ -759,7 +762,7 @@ impl Prop for C07 {
         // every failure kind at the first / middle / last position of a request that also does real work
         let kinds = ["bad", "badparam", "missing", "ins:t:i1", "slow"];
         let n = kinds.len() * 3;
-        if index >= n + 2 {
+        if index >= n + 3 {
             return None;
         }
         let cfg = format!("cfg {MAX_CHANGES_BYTE_SIZE}");
@@ -779,6 +782,19 @@ impl Prop for C07 {
         if index == n + 1 {
             // a transaction of several chunks whose last statement fails, then the same rows for real
             return Some(vec![cfg, "tx ins:t:i1299:a=t61".into(), "txbig 300 1000 40".into(), "state".into(), "txbig 299 1000 40".into(), marker(0), "state".into()]);
+        }
+        if index == n + 2 {
+            // 1500 statements / 2998 changes rolled back because the LAST statement violates the primary key, then
+            // the biggest transaction of the run: 3000 changes in ~27 chunks
+            return Some(vec![
+                cfg,
+                "tx ins:t:i5000:a=t61".into(),
+                "txbig 1500 3501 8".into(),
+                "state".into(),
+                "txbig 1500 2000 8".into(),
+                marker(0),
+                "state".into(),
+            ]);
         }
         let (kind, pos) = (kinds[index / 3], index % 3);
         let mut st = vec!["ins:t:i2:a=t62,b=i2".to_string(), "upd:t:i1:b=i7".to_string()];
@@ -889,11 +905,11 @@ impl Prop for C07 {
             w.sweep();
             w.strays();
             if w.broken {
-                w.tags.insert("broadcast-never-completed".into());
+                w.tags.push("broadcast-never-completed".into());
             }
             res.oracle_failures = std::mem::take(&mut w.fails);
             res.nontrivial = w.nontrivial;
-            res.tags = w.tags.iter().cloned().collect();
+            res.tags = std::mem::take(&mut w.tags);
         });
         rt.shutdown_timeout(Duration::from_secs(2));
         res
